@@ -16,7 +16,7 @@ import numpy as np
 import schedula as sh
 from . import (
     wrap_ufunc, Error, replace_empty, XlError, flatten, wrap_func, is_not_empty,
-    raise_errors, _text2num
+    raise_errors, _text2num, _float
 )
 
 FUNCTIONS = {}
@@ -698,7 +698,7 @@ FUNCTIONS['TEXT'] = wrap_ufunc(xtext, input_parser=lambda *a: a)
 def xvalue(value):
     if not isinstance(value, Error) and isinstance(value, str):
         try:
-            return float(value)
+            return _float(value)
         except (ValueError, TypeError):
             from .date import xdate, _text2datetime, xtime
             value = _text2datetime(value)
